@@ -160,6 +160,17 @@ def run(ck, w):
             ck.ok(o, sites=[pw[0].site()])
 
     common.protocol_dispatch_by_name(ck, w, "C07.1d")
+    o = ck.ob("C07.1e", "jsonio::write_json returns the error of its create-new write whatever it is (an AlreadyExists refusal is never turned into success)")
+    wj = w.body("jsonio::write_json")
+    wev = events_of(lib, wj, T_WRITE)
+    from cv import err as _err
+    fates = [_err.classify(wj, e).fate for e in wev]
+    if not wev:
+        ck.fail(o, wj.name, "anchor-missing", "no Transport::write in write_json")
+    elif all(f == "propagated" for f in fates):
+        ck.ok(o, sites=[e.site() for e in wev])
+    else:
+        ck.fail(o, wj.name, "write error not propagated", "the result of Transport::write in write_json is %s" % fates, wev[0].site())
 
     # ---- 2. sibling agreement of the three Protocol::write implementations -----------------------------
     present = {k: v for k, v in IMPLS.items() if v in lib.bodies}
@@ -328,7 +339,13 @@ def run(ck, w):
     for bb, j, s in aggs:
         orig = flow.origins_x(lib, cf, rules.field_operand(s, "band_id"))
         calls = flow.origin_calls(orig)
-        if not any(c.endswith("Option::<T>::map_or_else") or c.endswith("Option::<T>::map_or") for c in calls):
+        via_map = any(c.endswith("Option::<T>::map_or_else") or c.endswith("Option::<T>::map_or") for c in calls)
+        # or written out: match last_band_id()? { Some(n) => n.next_sibling(), None => BandId::zero() }
+        ns_ev = [e for e in cf.events if e.bb in cf.live and e.name == "bandid::BandId::next_sibling"]
+        via_match = {"bandid::BandId::next_sibling", "bandid::BandId::zero"} <= calls and calls <= {
+            "bandid::BandId::next_sibling", "bandid::BandId::zero"} and not [x for x in orig if x[0] in ("arith", "param", "upvar")] and \
+            all("archive::Archive::last_band_id" in flow.origin_calls(flow.origins_x(lib, cf, e.args[0])) for e in ns_ev) and bool(ns_ev)
+        if not via_map and not via_match:
             good = False
             ck.fail(o, cf.name, "band id not from map_or_else(zero, next_sibling)", "band_id derives from %s" % flow.origin_summary(orig))
     mo = [e for e in cf.events if e.bb in cf.live and re.search(r"Option::<T>::map_or(_else)?$", e.name)]
